@@ -149,7 +149,7 @@ def exact_trace(arg):
         holder = {}
 
         def body():
-            E = ExactEnv(tt, seed)
+            E = ExactEnv(tt, seed, scalar_mode=opts.get('scalar_mode', 'Z'))
             holder['E'] = E
             _setup(opts.get('setup') or {})
             SCEN[case['scen']](E, case['s'])
